@@ -157,3 +157,25 @@ func H_C03_compose() {
 	}
 	vCover("reached")
 }
+
+// Leaves that share selectors (and differ only in operator, literal or
+// spelling): a parse- or evaluation-time shortcut keyed on the selector or on
+// a rendering of the operand would confuse them.
+var sharedLeaves = []string{
+	`s matches "^a"`, `s matches "b$"`, `s matches "("`, `s == "a"`, `s == "b"`, `s != "a"`,
+	`m["b.c"] == 1`, `m.b.c == 1`, `"a" in s`, `s is empty`, `s not matches "^a"`, `"/m/b/c" == 1`,
+}
+
+func H_C03_shared() {
+	d := map[string]interface{}{
+		"s": vString(1),
+		"m": map[string]interface{}{"b.c": vInt8(), "b": map[string]interface{}{"c": vInt8()}},
+	}
+	ea := sharedLeaves[vChoose(len(sharedLeaves))]
+	eb := sharedLeaves[vChoose(len(sharedLeaves))]
+	oa, ob := leafO(ea, d), leafO(eb, d)
+	vAssert(compO(ea+" and "+eb, d) == tblAnd(oa, ob), "and table: "+ea+" / "+eb)
+	vAssert(compO(ea+" or "+eb, d) == tblOr(oa, ob), "or table: "+ea+" / "+eb)
+	vAssert(compO(ea+" or ("+ea+" and "+eb+")", d) == tblOr(oa, tblAnd(oa, ob)), "A or (A and B): "+ea+" / "+eb)
+	vCover("reached")
+}
